@@ -57,7 +57,8 @@ def decide(prop, tier, seed, gdir, units, results, notes, wall):
             lines.append('KNOWN-FINDING: property=%s %s (obligation %s)' % (prop, k[0]['what'], o['id']))
         else:
             viol.append(o)
-    cos = json.load(open(os.path.join(gdir, 'OK'))).get('cosim', 0)
+    cosd = json.load(open(os.path.join(gdir, 'OK'))).get('cosim', {})
+    cos = cosd.get('calls', 0)
     ev = dict(property_id=prop, tier=tier, seed=seed,
               level='other',
               coverage=dict(
@@ -71,6 +72,7 @@ def decide(prop, tier, seed, gdir, units, results, notes, wall):
                   checker_cmd=next((r.get('checker_cmd') for r in results if r.get('checker_cmd')), ''),
                   trusted_base=TRUSTED,
                   traces_validated_against_impl=cos,
+                  cosim_undefined_behaviour=[dict(container=u['container'], how=u['how']) for u in cosd.get('ub', [])],
                   samples=[dict(id=o['id'], status=o['status'], kind=o['kind'], expr=o.get('expr', o['desc'])[:200]) for o in (refuted[:5] + [x for x in obls if x['kind'] == 'postcondition'][:12])],
                   undecided=undec),
               assumptions=scan_assumptions() + ['bounded stand-in: capacity <= %d in these obligations' % max(u.maxcap for u in units)],
